@@ -660,8 +660,14 @@ class GatherResult(PrefetchResult):
         self.f_match_query = (
             self.cmp.mh1_containment_in_mh2
         )  # query_mh.contained_by(db_mh)
-        self.prep_prefetch_result()
-        return self.to_write(columns=prefetch_cols)
+        # the prefetch columns carry shortened md5s; this is a READ of the result: put the full
+        # match md5s back afterwards, gatherresultdict / write() report those
+        saved = (self.md5, self.match_md5)
+        try:
+            self.prep_prefetch_result()
+            return self.to_write(columns=prefetch_cols)
+        finally:
+            self.md5, self.match_md5 = saved
 
 
 def format_bp(bp):
